@@ -9,12 +9,12 @@ CLONE=${SEED_CLONE:-/tmp/repo-seed}
 SNAP=${SEED_SNAP:-/tmp/verif-snap2}
 if [ ! -d "$CLONE/.git" ]; then rm -rf "$CLONE"; git clone -q /repo "$CLONE"; fi
 git -C "$CLONE" fetch -q origin 2>/dev/null; git -C "$CLONE" checkout -q --detach "$(git -C /repo rev-parse HEAD)" 2>/dev/null || { git -C "$CLONE" fetch -q /repo HEAD && git -C "$CLONE" checkout -q --detach FETCH_HEAD; }
-git -C "$CLONE" checkout -q -- . ; git -C "$CLONE" clean -fdq
+git -C "$CLONE" reset -q --hard ; git -C "$CLONE" clean -fdq
 if [ ! -d "$SNAP" ] || [ -n "${SEED_RESNAP:-}" ]; then
   mkdir -p "$SNAP"; rsync -a --delete --exclude=/build --exclude=/.git --exclude=/replays --exclude=/evidence /verif/ "$SNAP/"
   grep -rl '/repo' "$SNAP" --include=*.go --include=*.sh --include=go.mod | xargs sed -i "s#/repo#$CLONE#g"
 fi
-git -C "$CLONE" apply "$PATCH" 2>/dev/null || { git -C "$CLONE" apply --3way "$PATCH" >/dev/null 2>&1 && git -C "$CLONE" reset -q && ! grep -rlq "^<<<<<<< " --include=*.go --include=*.peg "$CLONE" ; } || { git -C "$CLONE" checkout -q -- . ; echo "patch does not apply" >&2; exit 2; }   # (3-way: a seed written before a later fix touched the same file)
+git -C "$CLONE" apply "$PATCH" 2>/dev/null || { git -C "$CLONE" apply --3way "$PATCH" >/dev/null 2>&1 && git -C "$CLONE" reset -q && ! grep -rlq "^<<<<<<< " --include=*.go --include=*.peg "$CLONE" ; } || { git -C "$CLONE" reset -q --hard ; echo "patch does not apply" >&2; exit 2; }   # (3-way: a seed written before a later fix touched the same file)
 LOG=$(mktemp)
 for ID in "$@"; do
   (cd $SNAP && VERIF_DEADLINE_SECS=${SEED_SECS:-120} ./run.sh $ID quick >$LOG 2>&1); RC=$?
@@ -22,4 +22,4 @@ for ID in "$@"; do
   grep -E "^VIOLATION|^KNOWN-FINDING: property|^$ID quick|harness error|total violations|^  [a-zA-Z]" $LOG | cut -c1-400 | head -${SEED_LINES:-10}
 done
 rm -f $LOG
-git -C "$CLONE" checkout -q -- . ; git -C "$CLONE" clean -fdq
+git -C "$CLONE" reset -q --hard ; git -C "$CLONE" clean -fdq
